@@ -426,3 +426,46 @@ Proof.
 Qed.
 
 End Set_.
+
+(* ------------------------------------------------------------------ the rule in the form of the property text *)
+Lemma mod_div_mul (t len step : Z) : 0 < len -> 0 < step -> (t mod (len * step)) / step = (t / step) mod len.
+Proof.
+  intros Hl Hs.
+  pose proof (Z.div_mod t step ltac:(lia)) as H1. pose proof (Z.mod_pos_bound t step Hs) as B1.
+  pose proof (Z.div_mod (t / step) len ltac:(lia)) as H2. pose proof (Z.mod_pos_bound (t / step) len Hl) as B2.
+  set (q := t / step) in *. set (r := t mod step) in *. set (a := q / len) in *. set (c := q mod len) in *.
+  assert (Hm : t mod (len * step) = step * c + r).
+  { symmetry. apply (Z.mod_unique_pos t (len * step) a (step * c + r)); nia. }
+  rewrite Hm. symmetry. apply (Z.div_unique_pos (step * c + r) step c r); lia.
+Qed.
+
+(* Left (standard) direction: after rotating by -j the constant coefficient holds the entry
+   f[ floor((j + drift)/step) mod len ], negated iff floor((j + drift)/domain) is odd *)
+Theorem set_then_rotate_selects_left (m x : nat) (b klut kmsg : Z) (f : list Z) (data : lut) (drift' j : Z) :
+  let n := (2 ^ m)%nat in let ext := (2 ^ x)%nat in
+  let domain := Z.of_nat (n * ext) in let len := Z.of_nat (length f) in
+  let step := domain / len in let drift := step / 2 in
+  let size := Z.to_nat (div_ceil klut b) in let nl := Z.to_nat (div_ceil kmsg b) in
+  let scale := lut_scale b kmsg in
+  (m + x + 1 <= 62)%nat -> 1 <= b <= 62 -> 1 <= len <= Z.of_nat n -> domain mod len = 0 ->
+  Forall (fun fi => Z.abs (wmul 64 fi scale) <= 2 ^ 62) f ->
+  lookup_table_set n ext b klut kmsg f = Some (data, drift') ->
+  coeff0 (lookup_table_rotate n (- j) data) =
+    let e := entry_limbs b size nl (wmul 64 (nthZ f (Z.to_nat (((j + drift) / step) mod len))) scale) in
+    if Z.even ((j + drift) / domain) then e else map (wneg 64) e.
+Proof.
+  cbv zeta. intros Hmx Hb Hlen Hdiv Hhead Hset.
+  rewrite (set_then_rotate_selects m x b klut kmsg f Hmx Hb Hlen Hdiv Hhead data drift' Hset (- j)).
+  unfold selected_limbs. cbv zeta.
+  set (domain := Z.of_nat (2 ^ m * 2 ^ x)) in *. set (len := Z.of_nat (length f)) in *.
+  set (step := domain / len). set (drift := step / 2).
+  replace (0 + drift - - j) with (j + drift) by lia.
+  assert (Hs : len * step = domain).
+  { unfold step. pose proof (Z.div_mod domain len ltac:(lia)) as Hd. rewrite Hdiv in Hd. lia. }
+  assert (Hdpos : 0 < domain).
+  { unfold domain. pose proof (Nat.pow_nonzero 2 m ltac:(lia)). pose proof (Nat.pow_nonzero 2 x ltac:(lia)). nia. }
+  assert (Hs1 : 0 < step) by nia.
+  assert (Hdm : ((j + drift) mod domain) / step = ((j + drift) / step) mod len).
+  { rewrite <- Hs. apply mod_div_mul; lia. }
+  rewrite Hdm. reflexivity.
+Qed.
